@@ -85,8 +85,11 @@ class C15(Prop):
                                      rng.choice(['path', 'gz', 'mem']), self._rows(rng, True), self._rows(rng, True)))
             yield Case('roundtrip', ('rewrite', rng.choice(['csv', 'tsv', 'pickle', 'json', 'text']), rng.choice(['path', 'mem', 'gz']),
                                      self._rows(rng, False, 6), self._rows(rng, False, 2)))
-            yield Case('roundtrip', ('pickle', rng.choice(['path', 'gz', 'bz2', 'mem']), rng.random() < 0.8,
-                                     gen.freeze(gen.table(rng, maxrows=4, ragged=True))))
+            pt = gen.freeze(gen.table(rng, maxrows=4, ragged=True))
+            if rng.random() < 0.4:
+                # field names that are not text travel as they are
+                pt = (tuple(rng.choice([2019, None, 2.5, ('a', 1), b'f', True]) if rng.random() < 0.6 else f for f in pt[0]),) + pt[1:]
+            yield Case('roundtrip', ('pickle', rng.choice(['path', 'gz', 'bz2', 'mem']), rng.random() < 0.8, pt))
             yield Case('roundtrip', ('pickle_append', rng.choice(['path', 'mem']),
                                      gen.freeze(gen.table(rng, maxrows=3, ragged=True)),
                                      gen.freeze(gen.table(rng, maxrows=3, ragged=True))))
@@ -256,7 +259,8 @@ class C15(Prop):
             src, path = self._source(sk, td)
             etl.topickle([list(r) for r in t], src, write_header=write_header)
             back = list(etl.frompickle(self._reader_source(src, path)))
-            return back == [tuple(r) for r in (t if write_header else t[1:])]
+            want = [tuple(r) for r in (t if write_header else t[1:])]
+            return back == want and [[type(x) for x in r] for r in back] == [[type(x) for x in r] for r in want]
         if kind == 'pickle_append':
             _, sk, t1, t2 = arg
             src, path = self._source(sk, td, 'a')
